@@ -469,7 +469,9 @@ def check(pid, tier):
         if "dev" in by_prof and "release" in by_prof:
             (c1, i1), (c2, i2) = by_prof["dev"], by_prof["release"]
             if c1 == c2 and len(i1) == len(i2):
-                diff = [k for k in range(len(c1)) if i1[k] != i2[k]]
+                # some families echo the profile they ran under: not a behavioural difference
+                norm = lambda l: " ".join(t for t in l.split(" ") if t not in ("dev", "release", "checked", "wrapping"))
+                diff = [k for k in range(len(c1)) if norm(i1[k]) != norm(i2[k])]
                 stats["profile_divergences"] = stats.get("profile_divergences", 0) + len(diff)
                 for k in diff[:2]:
                     txt = "oracle: profile-divergence: overflow-checked and wrapping builds disagree on this input"
